@@ -15,6 +15,7 @@ import (
 	"go/types"
 	"os"
 	"path/filepath"
+	"regexp"
 	"sort"
 	"strings"
 
@@ -41,18 +42,18 @@ type Pkg struct {
 }
 
 type World struct {
-	Fset      *token.FileSet
-	Pkgs      map[string]*Pkg
-	Order     []*Pkg
-	Std       map[string]*types.Package
-	FuncDecl  map[*types.Func]*ast.FuncDecl
-	FuncPkg   map[*types.Func]*Pkg
-	Contracts map[string]*Decl // key pkgName.Name for func decls
-	SpecFuncs map[string]*Decl // by name (global)
-	Lemmas    []*Decl
-	TypeInvs  map[string]*Decl // pkgName.Type
-	AllDecls  []*Decl
-	Problems  []string
+	Fset       *token.FileSet
+	Pkgs       map[string]*Pkg
+	Order      []*Pkg
+	Std        map[string]*types.Package
+	FuncDecl   map[*types.Func]*ast.FuncDecl
+	FuncPkg    map[*types.Func]*Pkg
+	Contracts  map[string]*Decl // key pkgName.Name for func decls
+	SpecFuncs  map[string]*Decl // by name (global)
+	Lemmas     []*Decl
+	TypeInvs   map[string]*Decl // pkgName.Type
+	AllDecls   []*Decl
+	Problems   []string
 	mutGlobals map[*types.Var]bool
 }
 
@@ -235,6 +236,9 @@ func divf(a, b int) int { q := a / b; if (a%b != 0) && ((a < 0) != (b < 0)) { q-
 func modf(a, b int) int { return a - b*divf(a, b) }
 func assert(b bool) { if !b { panic("ghost assert failed") } }
 func assume(b bool) {}
+func llen(l *list.List) int { return l.Len() }
+func lat[T any](l *list.List, i int) T { e := l.Front(); for ; i > 0; i-- { e = e.Next() }; return e.Value.(T) }
+func lhas[T comparable](l *list.List, v T) bool { for e := l.Front(); e != nil; e = e.Next() { if w, ok := e.Value.(T); ok && w == v { return true } }; return false }
 func rfloor(x float64) int { return int(__floor(x)) }
 func __floor(x float64) float64 { i := float64(int(x)); if i > x { return i - 1 }; return i }
 `
@@ -430,6 +434,9 @@ func (w *World) recheck(pk *Pkg) error {
 			}
 			imports[im.Path.Value] = name
 		}
+	}
+	if _, ok := imports[`"container/list"`]; !ok {
+		imports[`"container/list"`] = ""
 	}
 	var sb strings.Builder
 	fmt.Fprintf(&sb, "package %s\n\nimport (\n", pk.Name)
@@ -683,7 +690,7 @@ func (w *World) recheck(pk *Pkg) error {
 				}
 				fmt.Fprintf(&sb, "func %s(%s) %s { return %s }\n", c.FnName, d.Params, rt, c.Text)
 			}
-			fmt.Fprintf(&sb, "func %s(%s) {\n%s}\n", d.Name, d.Params, d.Body)
+			fmt.Fprintf(&sb, "func %s(%s) {\n%s}\n", d.Name, d.Params, useAllLocals(d.Body))
 		case "type":
 			for _, c := range d.Clauses {
 				cn++
@@ -733,4 +740,24 @@ func numbered(s string) string {
 		fmt.Fprintf(&sb, "%4d %s\n", i+1, l)
 	}
 	return sb.String()
+}
+
+var reShortDecl = regexp.MustCompile(`^(\s*)([A-Za-z_]\w*(?:\s*,\s*[A-Za-z_]\w*)*)\s*:=`)
+
+// useAllLocals appends `_ = v` after every short variable declaration of a ghost body so that the body also
+// compiles with the real compiler (replay), where unused variables are errors.
+func useAllLocals(body string) string {
+	var out []string
+	for _, l := range strings.Split(body, "\n") {
+		out = append(out, l)
+		if m := reShortDecl.FindStringSubmatch(l); m != nil && !strings.Contains(l, "for ") && !strings.Contains(l, "if ") {
+			for _, n := range strings.Split(m[2], ",") {
+				n = strings.TrimSpace(n)
+				if n != "_" {
+					out = append(out, m[1]+"_ = "+n)
+				}
+			}
+		}
+	}
+	return strings.Join(out, "\n")
 }
